@@ -52,7 +52,7 @@ Definition set_max (s : session) (n : N) : session :=
   mkSession (s_id s) (s_host s) (s_name s) (s_subs s) n (s_pending s) (s_out s).
 Definition set_pending (s : session) (p : option ditems) : session :=
   mkSession (s_id s) (s_host s) (s_name s) (s_subs s) (s_max s) p (s_out s).
-Definition send (s : session) (d : ditems) : session :=                   (* MessageReceivedFromSession(*this, msg) -> AddOutgoingMessage *)
+Definition send (s : session) (d : ditems) : session :=                   (* MessageReceivedFromSession(self, msg) -> AddOutgoingMessage *)
   mkSession (s_id s) (s_host s) (s_name s) (s_subs s) (s_max s) (s_pending s) (s_out s ++ [d]).
 Definition clear_out (s : session) : session :=
   mkSession (s_id s) (s_host s) (s_name s) (s_subs s) (s_max s) (s_pending s) [].
